@@ -9,6 +9,7 @@ ENGINE = {'name': 'router',
  'n_quick': 2000,
  'n_thorough': 24000,
  'timeout': 900,
+ 'shard': 125,
  'serves': ['C02', 'C05'],
  'rule': 'route lists built white-box from scripted matchers (threshold need-k-bytes then Yes/No/error/panic, content test on byte k, '
          'the real MatchNot around them, one or two sets per route, empty = match all) and scripted handlers (terminal, consume-k-then-next, '
